@@ -156,6 +156,10 @@ impl<VM: VMBinding> WorkBucket<VM> {
 
     /// Open the bucket
     pub fn open(&self) {
+        #[cfg(mmtk_verif)]
+        crate::verif::events::emit(|| crate::verif::events::Ev::BucketOpen {
+            stage: self.stage.into_usize(),
+        });
         self.open.store(true, Ordering::SeqCst);
     }
 
@@ -180,24 +184,35 @@ impl<VM: VMBinding> WorkBucket<VM> {
             "Bucket {:?} not drained before close",
             self.stage
         );
+        #[cfg(mmtk_verif)]
+        crate::verif::events::emit(|| crate::verif::events::Ev::BucketClose {
+            stage: self.stage.into_usize(),
+            empty: self.is_empty(),
+        });
         self.open.store(false, Ordering::Relaxed);
     }
 
     /// Add a work packet to this bucket
     /// Panic if this bucket cannot receive prioritized packets.
     pub fn add_prioritized(&self, work: Box<dyn GCWork<VM>>) {
+        #[cfg(mmtk_verif)]
+        self.verif_added(work.get_type_name());
         self.prioritized_queue.as_ref().unwrap().push(work);
         self.notify_one_worker();
     }
 
     /// Add a work packet to this bucket
     pub fn add<W: GCWork<VM>>(&self, work: W) {
+        #[cfg(mmtk_verif)]
+        self.verif_added(std::any::type_name::<W>());
         self.queue.push(Box::new(work));
         self.notify_one_worker();
     }
 
     /// Add a work packet to this bucket
     pub fn add_boxed(&self, work: Box<dyn GCWork<VM>>) {
+        #[cfg(mmtk_verif)]
+        self.verif_added(work.get_type_name());
         self.queue.push(work);
         self.notify_one_worker();
     }
@@ -207,17 +222,23 @@ impl<VM: VMBinding> WorkBucket<VM> {
     /// used for notifying workers.  This usually happens if the current thread is the last worker
     /// parked.
     pub(crate) fn add_no_notify<W: GCWork<VM>>(&self, work: W) {
+        #[cfg(mmtk_verif)]
+        self.verif_added(std::any::type_name::<W>());
         self.queue.push(Box::new(work));
     }
 
     /// Like [`WorkBucket::add_no_notify`], but the work is boxed.
     pub(crate) fn add_boxed_no_notify(&self, work: Box<dyn GCWork<VM>>) {
+        #[cfg(mmtk_verif)]
+        self.verif_added(work.get_type_name());
         self.queue.push(work);
     }
 
     /// Add multiple packets with a higher priority.
     /// Panic if this bucket cannot receive prioritized packets.
     pub fn bulk_add_prioritized(&self, work_vec: Vec<Box<dyn GCWork<VM>>>) {
+        #[cfg(mmtk_verif)]
+        work_vec.iter().for_each(|w| self.verif_added(w.get_type_name()));
         self.prioritized_queue.as_ref().unwrap().push_all(work_vec);
         self.notify_all_workers();
     }
@@ -227,6 +248,8 @@ impl<VM: VMBinding> WorkBucket<VM> {
         if work_vec.is_empty() {
             return;
         }
+        #[cfg(mmtk_verif)]
+        work_vec.iter().for_each(|w| self.verif_added(w.get_type_name()));
         self.queue.push_all(work_vec);
         self.notify_all_workers();
     }
@@ -266,6 +289,16 @@ impl<VM: VMBinding> WorkBucket<VM> {
         if let Some(can_open) = self.can_open.as_ref() {
             if !self.is_open() && can_open(scheduler) {
                 debug!("Opening work bucket: {:?}", self.stage);
+                #[cfg(mmtk_verif)]
+                crate::verif::events::emit(|| crate::verif::events::Ev::BucketOpenByUpdate {
+                    stage: self.stage.into_usize(),
+                    earlier: scheduler
+                        .work_buckets
+                        .iter()
+                        .filter(|(id, _)| id.is_stw() && id.into_usize() < self.stage.into_usize())
+                        .map(|(id, b)| (id.into_usize(), b.is_enabled(), b.is_open(), b.is_empty()))
+                        .collect(),
+                });
                 self.open();
                 return true;
             }
@@ -291,6 +324,16 @@ impl<VM: VMBinding> WorkBucket<VM> {
         } else {
             false
         }
+    }
+
+    /// Verification hook: report a packet added to this bucket.
+    #[cfg(mmtk_verif)]
+    fn verif_added(&self, name: &'static str) {
+        crate::verif::events::emit(|| crate::verif::events::Ev::PacketAdd {
+            stage: self.stage.into_usize(),
+            name,
+            local: false,
+        });
     }
 
     pub(super) fn get_queue(&self) -> &BucketQueue<VM> {
